@@ -24,7 +24,8 @@ def build(tier, ctx):
                           "pres": pres, "mode": "c01"})
     else:
         defs = pvcommon.scope_defs(ctx["repo"], 7)
-        defs += pvcommon.extended_defs(6, stretched=(5, 10))
+        defs += pvcommon.extended_defs(6, stretched=(5, 10),
+                                       widths=(4, 5, 6, 7, 8))
         defs += [("FX", d) for d in fragment.stretched_family(4, 17)]
         defs += [("FE", d) for d in fragment.silent_break_family()]
         defs += pvcommon.skeleton_defs(tier)
